@@ -14,7 +14,7 @@ import tempfile
 import time
 
 V = "/verif"
-EXTRA = {"C01": ["C01", "C07"], "C17": ["C17", "C05"], "C12": ["C12", "C10"], "C10": ["C10", "C12"], "C11": ["C11", "C07"],
+EXTRA = {"C01-4": ["C01", "C07"], "C01": ["C01", "C07"], "C17": ["C17", "C05"], "C12": ["C12", "C10"], "C10": ["C10", "C12"], "C11": ["C11", "C07"],
          "C04": ["C04", "C12"], "C09": ["C09", "C19"], "C20": ["C20", "C04"]}
 args = sys.argv[1:]
 jobs = 3
@@ -40,7 +40,7 @@ def one(pid):
             json.dump(meta, open(d + "/meta.json", "w"), indent=1)
             return pid, ["patch does not apply to the current tree"]
         runs = []
-        for chk in (EXTRA.get(pid, [meta["property"]]) if "-" not in pid else [meta["property"]]):
+        for chk in EXTRA.get(pid, [meta["property"]]):
             env = dict(os.environ, VERIF_REPO=wt, VERIF_SEED=os.environ.get("VERIF_SEED", "1"),
                        VERIF_EVIDENCE_DIR=os.path.join(base, "evidence-" + pid))
             p = subprocess.run([V + "/bin/check", chk, "--tier", "quick"], cwd=V, capture_output=True, text=True, env=env)
